@@ -619,6 +619,9 @@ class Interp:
         if cfgd.get("serdes") == "raising":
             kw["serdes"] = RaisingSerDes()
             kw["item_serdes"] = JsonSerDes() if cfgd.get("item_serdes") == "json" else FragileSerDes(self.run, None) if cfgd.get("item_serdes") == "fragile" else None
+        if cfgd.get("item_serdes") and "item_serdes" not in kw:
+            # a custom serializer for the items only; the BatchResult itself goes through the default one
+            kw["item_serdes"] = JsonSerDes() if cfgd["item_serdes"] == "json" else FragileSerDes(self.run, None)
         if cfgd.get("summary") == "none":
             kw["summary_generator"] = None
         elif cfgd.get("summary") == "custom":
